@@ -38,10 +38,11 @@ class Session:
         self.n = 0
 
     def call(self, op, **kw):
-        self.n += 1
         m = dict(kw)
         m["op"] = op
-        m["id"] = self.n
+        if "mid" not in m:
+            self.n += 1
+            m["mid"] = self.n
         try:
             self.p.stdin.write((json.dumps(m) + "\n").encode())
             self.p.stdin.flush()
